@@ -24,7 +24,7 @@ TRUSTED_BASE = [
     'Rust harness /verif/harness and the read-only hooks behind cargo feature itree_verif (commit ea6fd43)',
     'this orchestrator (/verif/check, lib/propdefs.py)',
     'rustc/cargo/std as installed: Vec growth policy, binary_search_by contract, swap_remove, retain',
-    'the hand-written Gallina model is tied to the code only by the correspondence run (DESIGN.md section 8)',
+    'the hand-written Gallina models (tree level, and the statement-by-statement arena-level transcriptions Model/Arena*.v proved to refine it) are tied to the code only by the correspondence run (DESIGN.md section 8)',
 ]
 
 
